@@ -734,7 +734,11 @@ impl fmt::Display for Constraint {
             format!("{}: ", self.name)
         };
         if self.is_logic_assertion {
-            write!(f, "{}{}", name, self.lhs)
+            //an asserted constant is a boolean literal, as a number it would not type check
+            match &self.lhs {
+                Exp::Number(_) => write!(f, "{}{}", name, logic_operand_to_string(&self.lhs)),
+                lhs => write!(f, "{}{}", name, lhs),
+            }
         } else {
             write!(
                 f,
